@@ -60,6 +60,33 @@ func main() {
 			}
 		}
 		fmt.Println("bad:", bad, "of", n)
+	case "names":
+		env, err := compa.NewEnv(os.Args[2])
+		if err != nil {
+			panic(err)
+		}
+		scs := compa.GenNameScenarios(vh.NewRand(1))
+		for i, sc := range scs {
+			src := compa.NamesProgram([]compa.NameScenario{sc})
+			tag := fmt.Sprintf("%d %s after=%v", i, sc.Name, sc.After)
+			if class, msg := env.GoCheck([]byte(src), nil); class != "" {
+				fmt.Printf("=== %s: INVALID GO %s %s\n%s\n", tag, class, msg, src)
+				continue
+			}
+			out, err, esc, _ := env.BuildFile("main.xgo", src, false)
+			if err != nil || esc != "" {
+				fmt.Printf("=== %s: XGO %v %s\n", tag, err, esc)
+				continue
+			}
+			if class, msg := env.GoCheck(out, nil); class != "" {
+				fmt.Printf("=== %s: XGO-OUT %s %s\n", tag, class, msg)
+			}
+		}
+		all := compa.NamesProgram(scs)
+		if class, msg := env.GoCheck([]byte(all), nil); class != "" {
+			fmt.Println("=== ALL: INVALID", class, msg)
+		}
+		fmt.Println("scenarios:", len(scs))
 	case "recorder":
 		// replay of C07_recorder_defer_unprotected on the real code: an importer that cannot find
 		// "fmt" makes gogen.NewPackage panic; with a Recorder configured the deferred rec.Complete runs
